@@ -10,7 +10,7 @@ import (
 
 const rule = "configuration x log x fault: store in {memory streaming, memory behind a non-streaming wrapper with replay batch 1-7 or default, SQLite unbatched, SQLite stream batch 1-7, durable-streams with drawn chunk size}, log length 0-25 written directly to the store, published through the replaying bus itself, or half and half (another writer), start at any position, fault in {none, callback error at event k, context cancelled before the call or by the callback at event k, store failure at page/row/query/request k (wrapper stores, guarded SQLite fault driver, RoundTripper), unscannable SQLite row}; the bus has live subscribers. Oracle R1-R7: callbacks are a gap-free in-order prefix of log[start:], nil => all delivered, callback error => wrapped and exactly k delivered, cancellation before the end => non-nil, a store failure that occurred => non-nil, no subscribed handler ran, store length unchanged. Non-trivial = >=2 pages/batches to deliver AND (a fault strictly inside the log or a start strictly inside it)."
 
-var all = []string{"mem-stream", "mem-paged", "mem-paged", "sqlite", "sqlite-batched", "sqlite-batched", "durable", "durable"}
+var all = []string{"mem-stream", "mem-paged", "mem-paged", "sqlite", "sqlite-batched", "sqlite-batched", "sqlitemem", "sqlitemem-batched", "durable", "durable"}
 
 var collMem = vkit.NewCollector("C11", "TestReplayMemory", rule)
 var collSQL = vkit.NewCollector("C11", "TestReplaySQLite", rule)
@@ -22,7 +22,7 @@ func TestReplayMemory(t *testing.T) {
 	vkit.Check(t, collMem, Gen([]string{"mem-stream", "mem-paged", "mem-paged"}), Run)
 }
 func TestReplaySQLite(t *testing.T) {
-	vkit.Check(t, collSQL, Gen([]string{"sqlite", "sqlite-batched", "sqlite-batched"}), Run)
+	vkit.Check(t, collSQL, Gen([]string{"sqlite", "sqlite-batched", "sqlite-batched", "sqlitemem", "sqlitemem-batched"}), Run)
 }
 func TestReplayDurable(t *testing.T) { vkit.Check(t, collDS, Gen([]string{"durable"}), Run) }
 
